@@ -28,7 +28,10 @@ Hub == SObj(
  @@ Props3("fmap", SMap(SInt), "anymap", SMap(STrue), "num", SNum)
  @@ Props3("numarr", SArr(SNum), "numopt", SNullable(SNum), "nummap", SMap(SNum))
  @@ Props3("numtup", STuple(<<SNum, SStr>>), "numdesc", With(SNum, "description", "annotated use"),
-           "numdescarr", SArr(With(SNum, "description", "annotated item"))),
+           "numdescarr", SArr(With(SNum, "description", "annotated item")))
+ @@ Props3("keymap", [type |-> "object", propertyNames |-> [type |-> "string", pattern |-> "^a+$"], additionalProperties |-> STrue],
+           "patmap", [type |-> "object", patternProperties |-> ("^a" :> STrue)],
+           "keymapint", [type |-> "object", propertyNames |-> [type |-> "string", pattern |-> "^a+$"], additionalProperties |-> SInt]),
     {"direct", "tup", "nested"})
 HubVar == SOneOf(<< ExtVar("A", RefT), ExtVar("B", SInt), ExtVar("N", SNum) >>)
 Other == SObj(Props3("s", SStr, "n", SInt, "m", SMap(SStr)), {"s"})
